@@ -295,17 +295,20 @@ CLAIMED = {
    technique='contract-based deductive verification: frame conditions on ghost tag memory (pyvc)'),
  'C08': dict(
    category='proof',
-   text='Type 3 and Type 4 readers against an adversarial tag (every response arbitrary bytes of any length or a '
-        'command error, for Type 4 behind the real send_apdu/transceive): _read_attribute_data, _read_ndef_data and '
-        '_discover_ndef raise nothing (Type 4 discovery: only Type4TagCommandError, which Tag.ndef callers handle), '
-        'return None or data with len <= capacity, and send a bounded number of commands (loop variants); polling() '
-        'returns the tuple shape its callers unpack for every SENSF_RES. A native bounded stand-in (five scripted '
-        'adversarial Type 4A cards, not counted) exhibits three KNOWN FINDINGS: endless S(WTX), endless R(ACK) with the '
-        'other block number and endless response chaining keep IsoDepInitiator.exchange sending for ever. '
-        'Type 1/2 TLV walkers and activation dispatch are not covered (see C16 for the per-command contracts and C12 '
-        'for RATS/ATS evaluation).',
+   text='All four tag types against an adversarial tag (every response arbitrary bytes of any length or a command '
+        'error; for Type 4 behind the real send_apdu/transceive). Type 3 _read_attribute_data/_read_ndef_data/polling and '
+        'Type 4 _discover_ndef/_read_ndef_data: nothing is raised (Type 4 discovery: only Type4TagCommandError), the '
+        'result is None or data with len <= capacity, the command count is bounded (loop variants). Type 1 and Type 2 '
+        '_read_ndef_data over arbitrary memory contents - any TLV chain, any lock/memory control TLVs (the skip set is '
+        'an arbitrary interval set), any TLV length up to FFFFh, reads failing at any point: nothing is raised, every '
+        'loop of the TLV walk, of read_tlv and of the memory readers has a variant, and the result is None or a '
+        'message with len <= capacity; the Type 1 memory reader (__getitem__) is a proved summary. A native bounded '
+        'stand-in (five scripted adversarial Type 4A cards, not counted) exhibits three KNOWN FINDINGS: endless S(WTX), '
+        'endless R(ACK) with the other block number and endless response chaining keep IsoDepInitiator.exchange '
+        'sending for ever.',
    design_ref='DESIGN.md Part A sections A.4 (this property), A.8',
-   note='Tag.ndef / NDEF.has_changed wrappers, tt1/tt2 memory readers and vendor probing are NOT decided here. '
+   note='Tag.ndef / NDEF.has_changed wrappers, nfc.tag.activate dispatch and vendor probing are NOT decided here. '
+        'len() of a set of byte addresses is abstracted to its bounds (the same set expression has the same size). '
         'Termination of the ISO-DEP loops is not proved (no variant exists); the three known findings are listed in '
         'known_findings.json and printed as KNOWN-FINDING lines on every run.',
    technique='contract-based deductive verification: raises-clauses and loop variants against adversarial models (pyvc)'),
